@@ -177,6 +177,8 @@ pub enum TaskSpec {
     Copy(String, String),
     Ren(String, String),
     Del(String),
+    /// `get_opts`: key, conditions (`im+ius`, `-`), range (`b:1:3`), head, warm metadata cache
+    Get(String, String, Option<String>, bool, bool),
 }
 
 impl TaskSpec {
@@ -188,6 +190,18 @@ impl TaskSpec {
             ["copy", a, b] => TaskSpec::Copy(a.to_string(), b.to_string()),
             ["ren", a, b] => TaskSpec::Ren(a.to_string(), b.to_string()),
             ["del", k] => TaskSpec::Del(k.to_string()),
+            ["get", k, cond, rest @ ..] => {
+                let mut range = None;
+                let (mut head, mut warm) = (false, false);
+                for a in rest {
+                    match *a {
+                        "head" => head = true,
+                        "warm" => warm = true,
+                        a => range = Some(a.strip_prefix("r=")?.to_string()),
+                    }
+                }
+                TaskSpec::Get(k.to_string(), cond.to_string(), range, head, warm)
+            }
             _ => return None,
         })
     }
@@ -199,6 +213,12 @@ impl TaskSpec {
             TaskSpec::Copy(a, b) => format!("copy {a} {b}"),
             TaskSpec::Ren(a, b) => format!("ren {a} {b}"),
             TaskSpec::Del(k) => format!("del {k}"),
+            TaskSpec::Get(k, c, r, h, w) => format!(
+                "get {k} {c}{}{}{}",
+                r.as_ref().map(|r| format!(" r={r}")).unwrap_or_default(),
+                if *h { " head" } else { "" },
+                if *w { " warm" } else { "" }
+            ),
         }
     }
     /// the release (0 = start) during which the task mints its generation / takes the floor
@@ -208,7 +228,7 @@ impl TaskSpec {
     /// keys the task writes, with the value an acknowledged call leaves (None = absent); `src` = copy of that key's before-value
     fn effects(&self) -> Vec<(String, Effect)> {
         match self {
-            TaskSpec::Gc => vec![],
+            TaskSpec::Gc | TaskSpec::Get(..) => vec![],
             TaskSpec::Put(k, s, d) => vec![(k.clone(), Effect::Bytes(show_data(&gen_bytes(*d, *s))))],
             TaskSpec::Mput(k, s, d) => vec![(k.clone(), Effect::Bytes(show_data(&gen_bytes(*d, s.iter().sum()))))],
             TaskSpec::Copy(a, b) => vec![(b.clone(), Effect::CopyOf(a.clone()))],
@@ -272,6 +292,110 @@ async fn settle() {
 }
 
 type View = BTreeMap<String, Option<(u64, String, String, i64)>>;
+
+/// what a reader task got
+#[derive(Clone, Debug, PartialEq)]
+pub struct ReadRes {
+    pub size: u64,
+    pub tok: String,
+    pub micros: i64,
+    pub range: (u64, u64),
+    pub data: Vec<u8>,
+}
+
+/// one commit of a key, for the read oracle
+#[derive(Clone, Debug)]
+struct Commit {
+    tok: String,
+    micros: i64,
+    bytes: Vec<u8>,
+}
+
+async fn commit_of(fl: Flavor, backend: &InMemory, k: &str) -> Option<Commit> {
+    let store = build_store(fl, backend.clone());
+    let r = store.get(&key_path(k)?).await.ok()?;
+    let meta = r.meta.clone();
+    let b = r.bytes().await.ok()?;
+    Some(Commit { tok: meta.e_tag.unwrap_or_default(), micros: meta.last_modified.timestamp_micros(), bytes: b.to_vec() })
+}
+
+fn get_options(cond: &str, range: &Option<String>, head: bool, v1: &Option<Commit>) -> Option<GetOptions> {
+    let mut o = GetOptions::default();
+    let tok = v1.as_ref().map(|c| c.tok.clone()).unwrap_or_else(|| "no-such-token".into());
+    let tm = v1.as_ref().map(|c| c.micros).unwrap_or(1_000_000);
+    let date = |micros: i64| chrono::DateTime::from_timestamp_micros(micros);
+    if cond != "-" {
+        for c in cond.split('+') {
+            match c {
+                "im" => o.if_match = Some(tok.clone()),
+                "imx" => o.if_match = Some("nobody-holds-this".into()),
+                "inm" => o.if_none_match = Some(tok.clone()),
+                "inmx" => o.if_none_match = Some("nobody-holds-this".into()),
+                "ius" => o.if_unmodified_since = date(tm),
+                "iusm" => o.if_unmodified_since = date(tm - 1000),
+                "ims" => o.if_modified_since = date(tm),
+                "imsm" => o.if_modified_since = date(tm - 1000),
+                _ => return None,
+            }
+        }
+    }
+    if let Some(r) = range {
+        let parts: Vec<&str> = r.split(':').collect();
+        o.range = Some(match parts.as_slice() {
+            ["b", s, e] => object_store::GetRange::Bounded(s.parse().ok()?..e.parse().ok()?),
+            ["o", n] => object_store::GetRange::Offset(n.parse().ok()?),
+            ["s", n] => object_store::GetRange::Suffix(n.parse().ok()?),
+            _ => return None,
+        });
+    }
+    o.head = head;
+    Some(o)
+}
+
+/// what the reference answers for `opts` on one commit (None = the key is absent)
+fn expect_on(c: &Option<Commit>, cond: &str, range: &Option<String>, v1: &Option<Commit>) -> std::result::Result<ReadRes, String> {
+    let Some(c) = c else { return Err("err:notfound".into()) };
+    let tok1 = v1.as_ref().map(|c| c.tok.clone()).unwrap_or_else(|| "no-such-token".into());
+    let tm1 = v1.as_ref().map(|c| c.micros).unwrap_or(1_000_000);
+    let cs: Vec<&str> = if cond == "-" { vec![] } else { cond.split('+').collect() };
+    let im: Option<bool> = if cs.contains(&"im") { Some(c.tok == tok1) } else if cs.contains(&"imx") { Some(false) } else { None };
+    let inm: Option<bool> = if cs.contains(&"inm") { Some(c.tok == tok1) } else if cs.contains(&"inmx") { Some(false) } else { None };
+    let ius: Option<i64> = if cs.contains(&"ius") { Some(tm1) } else if cs.contains(&"iusm") { Some(tm1 - 1000) } else { None };
+    let ims: Option<i64> = if cs.contains(&"ims") { Some(tm1) } else if cs.contains(&"imsm") { Some(tm1 - 1000) } else { None };
+    // RFC 9110 13.2.2
+    match (im, ius) {
+        (Some(false), _) => return Err("err:precond".into()),
+        (None, Some(d)) if c.micros > d => return Err("err:precond".into()),
+        _ => {}
+    }
+    match (inm, ims) {
+        (Some(true), _) => return Err("err:notmodified".into()),
+        (None, Some(d)) if c.micros <= d => return Err("err:notmodified".into()),
+        _ => {}
+    }
+    let len = c.bytes.len() as u64;
+    let (s, e) = match range {
+        None => (0, len),
+        Some(r) => {
+            let p: Vec<&str> = r.split(':').collect();
+            match p.as_slice() {
+                ["b", s, e] => {
+                    let (s, e): (u64, u64) = (s.parse().unwrap_or(0), e.parse().unwrap_or(0));
+                    if e <= s || s >= len { return Err("err:generic".into()); }
+                    (s, e.min(len))
+                }
+                ["o", n] => {
+                    let n: u64 = n.parse().unwrap_or(0);
+                    if n >= len { return Err("err:generic".into()); }
+                    (n, len)
+                }
+                ["s", n] => (len.saturating_sub(n.parse().unwrap_or(0)), len),
+                _ => return Err("err:generic".into()),
+            }
+        }
+    };
+    Ok(ReadRes { size: len, tok: c.tok.clone(), micros: c.micros, range: (s, e), data: c.bytes[s as usize..e as usize].to_vec() })
+}
 
 async fn view_of(fl: Flavor, backend: &InMemory, keys: &[String]) -> std::result::Result<View, String> {
     let store = build_store(fl, backend.clone());
@@ -360,10 +484,22 @@ pub async fn run(fl: Flavor, backend: InMemory, tasks: &[TaskSpec], choices: &[u
     let gate = Gate::default();
     let (typed, store) = TypedS::build(fl, backend.clone(), gate.clone());
     let n = tasks.len();
-    let mut handles: Vec<Option<tokio::task::JoinHandle<std::result::Result<(), String>>>> = (0..n).map(|_| None).collect();
+    let mut handles: Vec<Option<tokio::task::JoinHandle<std::result::Result<Option<ReadRes>, String>>>> = (0..n).map(|_| None).collect();
+    // v1 of every key a reader targets (tokens / dates of the conditions), warm caches
+    let mut v1s: BTreeMap<String, Option<Commit>> = BTreeMap::new();
+    for t in tasks {
+        if let TaskSpec::Get(k, _, _, _, warm) = t {
+            if !v1s.contains_key(k) {
+                v1s.insert(k.clone(), commit_of(fl, &backend, k).await);
+            }
+            if *warm {
+                let _ = store.head(&key_path(k).unwrap()).await; // not a scheduled task: passes the gate
+            }
+        }
+    }
     let mut started = vec![false; n];
     let mut releases = vec![0usize; n];
-    let mut results: Vec<Option<std::result::Result<(), String>>> = (0..n).map(|_| None).collect();
+    let mut results: Vec<Option<std::result::Result<Option<ReadRes>, String>>> = (0..n).map(|_| None).collect();
     let mut trace: Vec<String> = vec![];
     let mut current: Option<usize> = None;
     let mut cpos = 0usize; // next entry of `choices`
@@ -404,9 +540,18 @@ pub async fn run(fl: Flavor, backend: InMemory, tasks: &[TaskSpec], choices: &[u
             let spec = tasks[pick].clone();
             let store = store.clone();
             let typed = typed.clone();
+            let v1 = if let TaskSpec::Get(k, ..) = &spec { v1s.get(k).cloned().flatten() } else { None };
             handles[pick] = Some(tokio::spawn(TASK.scope(pick, async move {
                 let e = |e: object_store::Error| err_kind(&e);
-                match spec {
+                let r: std::result::Result<(), String> = match spec {
+                    TaskSpec::Get(k, cond, range, head, _) => {
+                        let o = get_options(&cond, &range, head, &v1).ok_or("bad get options")?;
+                        let r = store.get_opts(&key_path(&k).unwrap(), o).await.map_err(e)?;
+                        let meta = r.meta.clone();
+                        let range = r.range.clone();
+                        let data = if head { vec![] } else { r.bytes().await.map_err(|x| format!("err:body:{}", err_kind(&x)))?.to_vec() };
+                        return Ok(Some(ReadRes { size: meta.size, tok: meta.e_tag.unwrap_or_default(), micros: meta.last_modified.timestamp_micros(), range: (range.start, range.end), data }));
+                    }
                     TaskSpec::Gc => typed.collect_garbage().await.map(|_| ()).map_err(e),
                     TaskSpec::Put(k, s, d) => store.put(&key_path(&k).unwrap(), PutPayload::from(gen_bytes(d, s))).await.map(|_| ()).map_err(e),
                     TaskSpec::Mput(k, sizes, d) => {
@@ -424,7 +569,8 @@ pub async fn run(fl: Flavor, backend: InMemory, tasks: &[TaskSpec], choices: &[u
                     TaskSpec::Copy(a, b) => store.copy(&key_path(&a).unwrap(), &key_path(&b).unwrap()).await.map_err(e),
                     TaskSpec::Ren(a, b) => store.rename(&key_path(&a).unwrap(), &key_path(&b).unwrap()).await.map_err(e),
                     TaskSpec::Del(k) => store.delete(&key_path(&k).unwrap()).await.map_err(e),
-                }
+                };
+                r.map(|_| None)
             })));
             trace.push(format!("{pick}:start"));
         } else {
@@ -452,6 +598,26 @@ pub async fn run(fl: Flavor, backend: InMemory, tasks: &[TaskSpec], choices: &[u
         reads.push(format!("{k}={r}"));
     }
     out.line = format!("{} | {} | {}", trace.join(" "), dump, reads.join(" "));
+    let mut rds = vec![];
+    for (i, t) in tasks.iter().enumerate() {
+        if let TaskSpec::Get(k, _, _, head, _) = t {
+            let old = v1s.get(k).cloned().flatten().map(|c| c.tok);
+            rds.push(format!(
+                "r{i}={}",
+                match &results[i] {
+                    Some(Ok(Some(r))) => {
+                        let tk = if Some(&r.tok) == old.as_ref() { "old" } else { "new" };
+                        if *head { format!("ok size={} tok={tk}", r.size) } else { format!("ok size={} range={}..{} data={} tok={tk}", r.size, r.range.0, r.range.1, show_data(&r.data)) }
+                    }
+                    Some(Err(e)) => e.clone(),
+                    _ => "unfinished".into(),
+                }
+            ));
+        }
+    }
+    if !rds.is_empty() {
+        out.line = format!("{} | {}", out.line, rds.join(" "));
+    }
     if out.deadlock {
         return out;
     }
@@ -477,11 +643,50 @@ pub async fn run(fl: Flavor, backend: InMemory, tasks: &[TaskSpec], choices: &[u
             }
         }
     }
+    // 0. every completed read is the answer of the reference for ONE commit of the key (the one current
+    //    when the tasks started or the one current at the end; with one writer there is no other)
+    for (i, t) in tasks.iter().enumerate() {
+        let TaskSpec::Get(k, cond, range, head, _) = t else { continue };
+        let v1 = v1s.get(k).cloned().flatten();
+        let last = commit_of(fl, &backend, k).await;
+        let mut commits = vec![v1.clone(), last];
+        if tasks.iter().any(|w| matches!(w, TaskSpec::Del(x) if x == k)) || tasks.iter().any(|w| matches!(w, TaskSpec::Ren(x, _) if x == k)) {
+            commits.push(None);
+        }
+        let accept: Vec<std::result::Result<ReadRes, String>> = commits.iter().map(|c| expect_on(c, cond, range, &v1)).collect();
+        let got: std::result::Result<ReadRes, String> = match &results[i] {
+            Some(Ok(Some(r))) => Ok(r.clone()),
+            Some(Err(e)) => Err(e.clone()),
+            _ => Err("unfinished".into()),
+        };
+        let same = |a: &std::result::Result<ReadRes, String>, b: &std::result::Result<ReadRes, String>| match (a, b) {
+            (Ok(x), Ok(y)) => x.size == y.size && x.tok == y.tok && x.micros == y.micros && (*head || (x.range == y.range && x.data == y.data)),
+            (Err(x), Err(y)) => x == y,
+            _ => false,
+        };
+        if !accept.iter().any(|a| same(a, &got)) {
+            let show = |r: &std::result::Result<ReadRes, String>| match r {
+                Ok(x) => format!("ok size={} tok={} range={}..{} data={}", x.size, if Some(&x.tok) == v1.as_ref().map(|c| &c.tok) { "v1" } else { "later" }, x.range.0, x.range.1, show_data(&x.data)),
+                Err(e) => e.clone(),
+            };
+            // which commit was served, and what does the reference say about it?
+            let served_failing = match &got {
+                Ok(g) => commits.iter().zip(accept.iter()).any(|(c, a)| c.as_ref().is_some_and(|c| c.tok == g.tok) && a.is_err()),
+                Err(_) => false,
+            };
+            out.failures.push(ConcFailure {
+                key: if served_failing { "cond-read-served-commit-that-fails-its-precondition".into() } else { "cond-read-unexpected-answer".into() },
+                what: format!("schedule {sched}: `{}` answered something the reference answers for no commit of the key{}", t.line(), if served_failing { " — it served a commit that does not satisfy the caller's preconditions" } else { "" }),
+                expected: format!("one of [{}]", accept.iter().map(show).collect::<Vec<_>>().join(" | ")),
+                observed: show(&got),
+            });
+        }
+    }
     // 2. every acknowledged commit readable after a cold restart; untouched keys unchanged
     if let (Ok(before), Ok(after)) = (&before, &view_of(fl, &backend, all_keys).await) {
         let mut written: BTreeMap<String, Vec<Option<String>>> = BTreeMap::new();
         for (i, t) in tasks.iter().enumerate() {
-            let acked = matches!(results[i], Some(Ok(())));
+            let acked = matches!(results[i], Some(Ok(_)));
             for (k, eff) in t.effects() {
                 let e = written.entry(k.clone()).or_default();
                 if acked {
